@@ -197,6 +197,10 @@ def run(tier, seed, replay=None):
                     # call either raises or leaves a well-formed receiver
                     other = O.make_impl(O.gen_obj(rng, pardim=1, kinds=rng.choice([['open'], ['periodic']]), nint_max=3, big_periodic=True))
                     args = ['periodic argument' if other.periodic(0) else 'open argument']
+                    low = o if o.order(0) < other.order(0) else other
+                    if o.order(0) != other.order(0) and not other.periodic(0) and \
+                            (max(o.order(0), other.order(0)) > 5 or any(low.bases[0].continuity(kk) < 0 for kk in low.bases[0].knot_spans()[1:-1])):
+                        continue      # append elevates the lower order first: objects with jump knots are recorded under C05
                     siblings = (siblings + [other])[-4:]
                     o.append(other)
                 elif op == 'make_identical':
